@@ -20,12 +20,20 @@ def turnA (arr : C07.WState → Option C07.Ver → C07.WState) (env : C03.Env) (
   let it := iter0 env r ev rest t0
   let w1 := arr r.w it.ver
   let o := C07.process w1.deadline it
-  let sv' := turnOf env r.carried w1.deadline o ev.ver r.rv (rest.head?.map (·.at_)) sv
+  let sv0 := turnOf env r.carried w1.deadline o ev.ver r.rv (rest.head?.map (·.at_)) sv
+  -- GLUE 7 (`constPatch` on a STALE view): the cycle's patch has content that changes nothing (an on.event handler's constant);
+  -- when C03's turn changed nothing else on the view, that patch is the only request: the server makes no version and answers with
+  -- the NEWER version it holds, `application.apply` takes "answered ≠ seen" for a change: no sleep, no touch; the worker is handed
+  -- that version (and arms on it). Held back or not; not in a turn dedicated to the finalizer / on a blind or gone object.
+  let constStale := env.constPatch && decide (ev.ver ≠ r.rv) && it.required && r.carried == .none &&
+    !objDiffers (C03.ids env) (objOfS sv) (objOfS sv0) && !(sv0.gone && !sv.gone)
+  let sv' : C03.State E :=
+    if constStale then { sv0 with pending := false, now := o.left + env.rtt, writes := sv.writes + C03.cp env } else sv0
   let tret := if sv'.now < t0 then t0 else sv'.now
   let released := sv'.gone && !sv.gone
   let srv' := writeBack r.srv sv sv'
-  let noop := sv'.pending && objDiffers (C03.ids env) (objOfS sv) (objOfS sv') &&
-    !objDiffers (C03.ids env) r.srv srv' && !released
+  let noop := (sv'.pending && objDiffers (C03.ids env) (objOfS sv) (objOfS sv') &&
+    !objDiffers (C03.ids env) r.srv srv' && !released) || constStale
   let echo := sv'.pending && !noop
   { it := it, o := o, sv := sv, sv' := sv', tret := tret, srv' := srv', released := released, noop := noop, echo := echo,
     wrote := echo || released }
